@@ -525,8 +525,11 @@ var _ time.Time
 // taken from the property: '*' stands for any sequence, '%' for any sequence
 // not containing the delimiter, every other character for itself.
 
+// delimAt: the hierarchy delimiter (a possibly multi-byte character) starts at
+// the beginning of n.
+//
 //@ pure
-func isDelimByte(b byte, d string) bool { return len(d) == 1 && d[0] == b }
+func delimAt(n, d string) bool { return len(d) > 0 && strings.HasPrefix(n, d) }
 
 //@ pure
 //@ decreases len(n) + len(p)
@@ -539,7 +542,7 @@ func specMatch(n, d, p string) bool {
 		return specMatch(n, d, p[1:]) || (len(n) > 0 && specMatch(n[1:], d, p))
 	}
 	if c == '%' {
-		return specMatch(n, d, p[1:]) || (len(n) > 0 && !isDelimByte(n[0], d) && specMatch(n[1:], d, p))
+		return specMatch(n, d, p[1:]) || (len(n) > 0 && !delimAt(n, d) && specMatch(n[1:], d, p))
 	}
 	return len(n) > 0 && n[0] == c && specMatch(n[1:], d, p[1:])
 }
@@ -556,7 +559,7 @@ func anyFrom(n, d, rest string, j int, pct bool) bool {
 	if specMatch(n[j:], d, rest) {
 		return true
 	}
-	return j < len(n) && !(pct && isDelimByte(n[j], d)) && anyFrom(n, d, rest, j+1, pct)
+	return j < len(n) && !(pct && delimAt(n[j:], d)) && anyFrom(n, d, rest, j+1, pct)
 }
 
 //@ pure
@@ -595,7 +598,6 @@ func lemmaWild(n, d, p string, j int) {
 //@ func matchList(name0, delim, pattern string) (result bool)
 //@   props C20
 //@   fuel 2
-//@   requires len(delim) <= 1 && (len(delim) == 1 ==> delim[0] < 128)
 //@   ensures result == specMatch(name0, delim, pattern)
 //@   decreases len(pattern)
 //@   at "return name == pattern" do lemmaChunk(name0, delim, pattern, len(pattern))
